@@ -42,6 +42,9 @@ const otherApp = "pre.v.app.x"
 type Config struct {
 	MaxSize  uint64 `json:"max_size"`
 	MaxFiles uint32 `json:"max_files"`
+	// CreateOffMs: the writer is created this many milliseconds into its first second (a write in that same
+	// second is accepted like any other)
+	CreateOffMs int64 `json:"create_off_ms,omitempty"`
 }
 
 type wop struct {
@@ -158,6 +161,7 @@ func build(root string, cfg Config, hist []int) (*world, string) {
 			_ = cl.Close()
 		}
 	}
+	env.Clock.SetMs(T0 + cfg.CreateOffMs)
 	wr, err := metric.NewDefaultMetricLogWriterOfApp(cfg.MaxSize, cfg.MaxFiles, app)
 	if err != nil {
 		return w, "writer creation failed: " + err.Error()
@@ -700,9 +704,10 @@ func configs() []Config {
 	var out []Config
 	for _, sz := range []uint64{60, 200, 1 << 20} {
 		for _, n := range []uint32{1, 2, 3} {
-			out = append(out, Config{sz, n})
+			out = append(out, Config{MaxSize: sz, MaxFiles: n})
 		}
 	}
+	out = append(out, Config{MaxSize: 200, MaxFiles: 2, CreateOffMs: 500}, Config{MaxSize: 1 << 20, MaxFiles: 3, CreateOffMs: 999})
 	return out
 }
 
@@ -801,7 +806,7 @@ func run(c *props.Ctx) {
 		maxChain = 24
 	}
 	c.R.Bounds["roll_chain_max_writes"] = maxChain
-	for _, cfg := range []Config{{1, 4}, {1, 12}, {1, 30}} {
+	for _, cfg := range []Config{{MaxSize: 1, MaxFiles: 4}, {MaxSize: 1, MaxFiles: 12}, {MaxSize: 1, MaxFiles: 30}} {
 		for _, pat := range [][]int{{1}, {1, 0}} {
 			for n := 1; n <= maxChain; n++ {
 				idx++
